@@ -348,6 +348,9 @@ def _ccf_run(ctx, rng, case, refill):
             ops.append(("remove", rng.choice(keys)))
         elif r < 0.93:
             ops.append(("expand",))
+        elif r < 0.96:
+            ops.append(("badset", rng.choice([0, 5, 9, -1, 4.5])))  # a fingerprint size outside 1..4 bytes: refused, nothing changes
+            ctx.count("ccf.refused_settings_inside_histories")
         else:
             ops.append(("reload", rng.choice(["bytes", "path"])))
     ops = ops[:22] if not refill else ops
